@@ -20,15 +20,37 @@ def key_determines_result(self):
         callv(self.inner_f, a, kw) == callv(self.inner_f, a2, kw2) and callvraises(self.inner_f, a, kw) == callvraises(self.inner_f, a2, kw2))))))
 
 
+def refs_inv(self):
+    # every cached key has its arguments retained
+    return forall_val(lambda k: implies(mhas(self.cache, k), mhas(self._refs, k)))
+
+
+def refs_inv0(self):
+    return True
+
+
 SPEC("pane.util", "KeyCache.__call__",
-     shapes={"self.cache": "map", "args": "seq", "kwargs": "map", "self._missing": ""},
+     shapes={"self.cache": "map", "self._refs": "map", "args": "seq", "kwargs": "map", "self._missing": ""},
      mutable=["self"],
      requires=[lambda self, args, kwargs: is_none(self.maxsize),
                lambda self, args, kwargs: cache_inv(self),
                lambda self, args, kwargs: key_determines_result(self),
-               lambda self, args, kwargs: forall_val(lambda k: implies(mhas(self.cache, k), mget(self.cache, k) is not self._missing))],
+               lambda self, args, kwargs: forall_val(lambda k: implies(mhas(self.cache, k), mget(self.cache, k) is not self._missing)),
+               lambda self, args, kwargs: refs_inv(self)],
      assumes=[lambda self, args, kwargs: hashable(callv(self.key_f, args, kwargs))],
      note="LRU mode (maxsize given) is not under contract: not used by make_converter; thread interleavings are outside this technique",
      ensures=[(lambda self, args, kwargs, result: result == callv(self.inner_f, args, kwargs), ["C10"], "transparent"),
-              (lambda self, args, kwargs, result: cache_inv(self), ["C10"], "history-invariant")],
+              (lambda self, args, kwargs, result: cache_inv(self), ["C10"], "history-invariant"),
+              # retention: the arguments behind every key stay referenced from the cache, so an id()-based key cannot be
+              # re-issued to a different object while its entry exists
+              (lambda self, args, kwargs, result: refs_inv(self) and mhas(self._refs, callv(self.key_f, args, kwargs)), ["C10"], "retains")],
      frame=["C10"])
+
+
+# the key function of make_converter identifies its arguments, GIVEN that the type objects behind cached keys are alive
+# together (id() is unique among simultaneously live objects - CPython guarantee, assumed; retention is the obligation above)
+LEMMA("make_converter_key_identifies_arguments",
+      forall={"ty": "", "h": "", "ty2": "", "h2": ""},
+      requires=[lambda ty, h, ty2, h2: implies(id_of(ty) == id_of(ty2), ty == ty2)],
+      goal=[(lambda ty, h, ty2, h2: implies(retc("pane.convert:_make_converter_key_f", ty, h) == retc("pane.convert:_make_converter_key_f", ty2, h2),
+                                            ty == ty2 and h == h2), ["C10"])])
